@@ -866,6 +866,9 @@ def m_vec_into_iter(eng, ctx, f, path, args, dty):
     if isinstance(a, Enum) and a.name == "Option":
         return Native("optiter", a)
     v = the_vec(eng, ctx, a)
+    if path.strip().startswith("<&"):
+        # iteration by reference over a slice value that is not held in a place: read-only element cells
+        return Native("liter", (tuple(Ptr(("static", MC.new_cell(ctx, x, "elem"))) for x in v.data), 0))
     return Native("liter", (v.data, 0))
 
 
@@ -2010,3 +2013,5 @@ FALLBACK.setdefault(r"(^|::)(RwLock|Mutex)::(into_inner|get_mut)$", lambda eng, 
 # Clone of a value the dump has no impl for (std types, type parameters): the model values are immutable trees; shared mutable
 # state lives behind pointers (cells / heap objects), which a clone of the handle keeps pointing to
 FALLBACK.setdefault(r" as Clone>::clone$", lambda eng, ctx, f, path, args, dty: clone(load(eng, ctx, args[0])) if not isinstance(load_one(eng, ctx, args[0]), Ptr) or True else args[0])
+FALLBACK.setdefault(r"^((core|std)::panicking::)?(panic|panic_fmt|panic_display|panic_str|panic_explicit|panic_nounwind|panic_cold_explicit|begin_panic|assert_failed|unreachable_display|panic_bounds_check)$|(^|::)(unwrap_failed|expect_failed)$",
+                    lambda eng, ctx, f, path, args, dty: Diverge("panic", f"explicit panic in {f.body.name if f is not None else '?'}"))
